@@ -641,6 +641,20 @@ func produceConsume(rt *rapid.T, c *ksCase, from, to party, msg, ad []byte) {
 	}
 }
 
+// withPrimary is a copy of h whose primary is the (ENABLED) key id.  Manager operations are C11's
+// matter: a refusal here is a harness error.
+func withPrimary(rt *rapid.T, c *ksCase, h *keyset.Handle, id uint32) *keyset.Handle {
+	m := keyset.NewManagerFromHandle(h)
+	if err := m.SetPrimary(id); err != nil {
+		rt.Fatalf("%v\nharness: SetPrimary(%#x) on a copy of the handle: %v", c, id, err)
+	}
+	out, err := m.Handle()
+	if err != nil {
+		rt.Fatalf("%v\nharness: Manager.Handle after SetPrimary(%#x): %v", c, id, err)
+	}
+	return out
+}
+
 // TestKeysetRoundTrip: C12 second sentence.
 func TestKeysetRoundTrip(t *testing.T) {
 	rapid.Check(t, func(rt *rapid.T) {
@@ -698,6 +712,33 @@ func TestKeysetRoundTrip(t *testing.T) {
 		ad := gen.Bytes(rt, "ad", 40)
 		produceConsume(rt, c, orig, cp, msg, ad)
 		produceConsume(rt, c, cp, orig, msg, ad)
+
+		// "its primitives interoperate with the original's" is a statement about every key a primitive can
+		// use, and a keyset primitive produces with its primary only: each further ENABLED member (at most
+		// two per case, the window is drawn) is made the primary of a copy of all four handles
+		// (NewManagerFromHandle + SetPrimary) and produces / consumes both ways as well.
+		var others []int
+		for j, m := range c.members {
+			if j != c.primary && m.status == keyset.Enabled {
+				others = append(others, j)
+			}
+		}
+		if len(others) > 2 {
+			at := gen.Uniform(rt, "other_members_from", len(others))
+			others = []int{others[at], others[(at+1)%len(others)]}
+		}
+		for _, j := range others {
+			id := c.members[j].id
+			oj := party{name: fmt.Sprintf("original, primary moved to #%d", j), priv: withPrimary(rt, c, c.h, id)}
+			cj := party{name: fmt.Sprintf("%s, primary moved to #%d", cp.name, j), priv: withPrimary(rt, c, h2, id)}
+			if hasPublic(c.class) {
+				oj.pub, cj.pub = withPrimary(rt, c, orig.pub, id), withPrimary(rt, c, cp.pub, id)
+			}
+			produceConsume(rt, c, oj, cj, msg, ad)
+			produceConsume(rt, c, cj, oj, msg, ad)
+			evid.Add("interop_nonprimary_member/"+c.members[j].info.Type+"/"+c.members[j].info.Variant, 1)
+		}
+		evid.Add(fmt.Sprintf("interop_members_per_case/%d", 1+len(others)), 1)
 
 		h := evid.NewH().S(string(c.class)).S(r.mode).S(r.format).I(int64(c.primary))
 		for _, m := range c.members {
